@@ -198,8 +198,15 @@ func genC11(g *Gen, tier string, idx int) *wire.Scenario {
 		sc.Plan.Faults = []wire.Fault{{Kind: "eof", ReadKind: "cursor", Nth: nread}}
 		sc.Script = append(sc.Script, tok("\r", "accept-line"))
 	case "resize-then-accept":
-		sc.Plan.Disturb = []wire.Disturb{{Kind: "resize", Task: "main", Site: "inputwait", Nth: nread, W: env.W, H: env.H}}
+		sc.Plan.Disturb = []wire.Disturb{{Kind: Pick(g, []string{"resize", "resize", "sigwinch", "printf"}), Task: "main", Site: "inputwait", Nth: nread, W: env.W, H: env.H}}
 		sc.Script = append(sc.Script, tok("\r", "accept-line"))
+		if g.P(75) {
+			// Return is typed while the watcher's (or the Printf caller's) redisplay still waits for its cursor
+			// report: that redisplay ends after Readline has returned, and must leave the terminal as the call left it
+			sc.Plan.TypeWithReport = 1
+			sc.Plan.Policy, sc.Plan.Seed = "seeded", g.Seed()
+			sc.Plan.Sites = g.siteSubset(Pick(g, []int{70, 100}))
+		}
 	}
 	sc.Env = env
 	if g.P(20) && len(sc.Plan.Faults) == 0 && len(sc.Plan.Disturb) == 0 {
@@ -212,7 +219,10 @@ func genC11(g *Gen, tier string, idx int) *wire.Scenario {
 		x.Warm = len(warm)
 	}
 	sc.X = mustJSON(x)
-	sc.Plan.Policy, sc.Plan.Class = "canonical", "S0"
+	if sc.Plan.Policy == "" {
+		sc.Plan.Policy = "canonical"
+	}
+	sc.Plan.Class = "S0"
 	if len(sc.Plan.Faults) > 0 {
 		sc.Plan.Class = "S3"
 	}
@@ -364,6 +374,12 @@ func execC11(x *Ctx, sc *wire.Scenario) *wire.Result {
 	if userPanic && (cc != 0 || (cr <= textLast && textLast < t.H-1)) {
 		// one defect, whichever coordinate shows it (with an empty prompt the column happens to be 0)
 		return violation(res, "TERMINAL", "C11.cursor-on-fresh-row", "cursor-left-inside-the-input-area:panic", "cursor not on a fresh row "+ctx)
+	}
+	if sc.Plan.TypeWithReport > 0 && len(sc.Plan.Disturb) > 0 && (cc != 0 || (cr <= textLast && textLast < t.H-1) || !t.RowBlank(cr)) {
+		// Return was typed while the redisplay of a resize or Printf was waiting for its cursor report: that redisplay
+		// goes on after Readline has returned and paints the line again on the fresh row (one defect, the listed root
+		// cause of C20 -- redisplays are not synchronised with the main loop -- seen at the way out)
+		return violation(res, "TERMINAL", "C11.cursor-on-fresh-row", "redisplay-of-a-resize-or-printf-ends-after-the-return", "the terminal is written to after the return: "+ctx)
 	}
 	if cc != 0 {
 		return violation(res, "TERMINAL", "C11.cursor-on-fresh-row", "cursor-col:"+cls+":"+xx.Shape, "cursor not in column 0 "+ctx)
